@@ -224,6 +224,54 @@ def sharing_family():
     return progs
 
 
+def labels_in(e, acc=None):
+    acc = acc if acc is not None else set()
+    if isinstance(e, tuple):
+        if e and e[0] == "trace":
+            acc.add(e[1])
+        for x in e[1:]:
+            labels_in(x, acc)
+    elif isinstance(e, list):
+        for x in e:
+            labels_in(x, acc)
+    return acc
+
+
+def known_same_value_equality(ip, bad):
+    """the known finding C13-equals-same-object-shortcut seen from C03: `v == v` / `v != v` on ONE array or object
+    value answers by pointer identity without evaluating the elements.  Narrow: every wrong label was NOT
+    evaluated by the code (count 0) and lies inside a binding of a variable that the program compares with
+    itself."""
+    if not bad or any(c != 0 or s2 < 1 for (_l, s2, c) in bad):
+        return None
+
+    def unwrap(x):
+        while isinstance(x, tuple) and x and x[0] == "trace":
+            x = x[2]
+        return x
+    selfcmp, binds = set(), {}
+
+    def walk(e):
+        if isinstance(e, tuple):
+            if e and e[0] == "bin" and e[1] in ("==", "!="):
+                a, b = unwrap(e[2]), unwrap(e[3])
+                if a[0] == "var" and a == b:
+                    selfcmp.add(a[1])
+            if e and e[0] == "local":
+                for n, b in e[1]:
+                    labels_in(b, binds.setdefault(n, set()))
+            for x in e[1:]:
+                walk(x)
+        elif isinstance(e, list):
+            for x in e:
+                walk(x)
+    walk(ip)
+    covered = set()
+    for n in selfcmp:
+        covered |= binds.get(n, set())
+    return "C03-equals-same-value-shortcut" if selfcmp and all(l in covered for (l, _s, _c) in bad) else None
+
+
 def correspond(run, binary, progs, exact_flags):
     failures = []
     inst = []
@@ -287,6 +335,165 @@ def correspond(run, binary, progs, exact_flags):
     return failures
 
 
+# ---------------------------------------------------------------- the four memo sites (source tie)
+MEMO_MODEL = {
+    "enter": "match s with | GWaiting => (EProceed, GPending) | GPending => (EInfRec, GPending) "
+             "| GComputed => (EValue, GComputed) | GErrored => (EStoredErr, GErrored) end.",
+    "leave": "if ok then (ROk, GComputed) else (RErr, GErrored).",
+    "lazy": "match s with | GWaiting => LDeferred | GPending => LDeferred | GComputed => LEvaluated "
+            "| GErrored => LErrored end.",
+}
+MEMO_SITES = {"thunk": ("val.rs MemoizedClosureThunk::get (Thunk::evaluate)", False),
+              "exprarr": ("arr/spec.rs ExprArray::get / get_lazy", True),
+              "mapped": ("arr/spec.rs MappedArray::get / get_lazy", True),
+              "obj": ("obj/mod.rs ObjValue::get_idx (field cache)", False)}
+
+
+def memo_table_obligations(run):
+    """one obligation per site: the step functions the translator wrote into Gen/GenMemo.v are, as text, the
+    model cell's (the Coq theorems C03_site_is_model_cell_<site> prove it; this names WHICH step deviates)"""
+    import os
+    import re
+    path = os.path.join(core.COQ, "theories", "Gen", "GenMemo.v")
+    txt = open(path, encoding="utf-8").read() if os.path.exists(path) else ""
+    deviating = []
+    for site, (where, has_lazy) in MEMO_SITES.items():
+        diffs = []
+        for step in ("enter", "leave") + (("lazy",) if has_lazy else ()):
+            m = re.search(rf"Definition gen_{site}_{step}\b[^\n]*:=\n\s*([^\n]*)\n", txt)
+            got = m.group(1).strip() if m else "<missing>"
+            if got != MEMO_MODEL[step]:
+                diffs.append(f"{step}: source says `{got}`, the model cell is `{MEMO_MODEL[step]}`")
+        m = re.search(rf"Definition gen_{site}_gate : bool := (\w+)\.", txt)
+        gate = m.group(1) if m else "<missing>"
+        if gate != ("true" if site == "obj" else "false"):
+            diffs.append(f"gate: source says {gate}")
+        run.obligation(f"C03.source.{site} ({where}) translates to the model cell", not diffs, "; ".join(diffs))
+        if diffs:
+            deviating.append(site)
+    return deviating
+
+
+def memo_probe_programs():
+    """Programs that reach ONE memo cell of each site through several routes: twice, re-entrantly, and again
+    after an error.  The top-level value is an array; the harness (`arrprobe`) reads every position on its own,
+    so an error in one position does not end the run.  Call-by-need demands: every position gives the same
+    outcome, every std.trace label fires exactly once.
+    -> [(site, what, code, expected class, labels that must fire exactly once)]"""
+    out = []
+    kinds = [("value", lambda l, selfref: f'std.trace("{l}", 1 + 1)', "val"),
+             ("error", lambda l, selfref: f'std.trace("{l}", error "boom")', "runtime-error"),
+             ("reentrant", lambda l, selfref: f'std.trace("{l}", {selfref})', "infinite-recursion"),
+             ("reentrant-in-operand", lambda l, selfref: f'std.trace("{l}", 1 + {selfref})', "infinite-recursion")]
+    for kname, body, cls in kinds:
+        # --- thunks (local bindings, arguments, defaults)
+        b = body("T", "x")
+        out.append(("thunk", kname, f"local x = {b}; [x, x, x]", cls, ["T"]))
+        out.append(("thunk", kname, f"local x = {b}; [x, [x][0], {{ a: x }}.a, x]", cls, ["T"]))
+        out.append(("thunk", kname, f"local x = {b}, y = x; [y, x, y]", cls, ["T"]))
+        if not kname.startswith("reentrant"):
+            out.append(("thunk", kname, f"local f(p) = [p, p, p]; f({b})", cls, ["T"]))
+            out.append(("thunk", kname, f"local f(p=({b})) = [p, p]; f()", cls, ["T"]))
+        # --- ExprArray elements
+        for selfref in ("a[0]", "[x for x in a][0]"):
+            b = body("A", selfref)
+            if not kname.startswith("reentrant") and selfref != "a[0]":
+                continue
+            out.append(("exprarr", kname, f"local a = [{b}]; a + a + a", cls, ["A"]))
+            out.append(("exprarr", kname, f"local a = [{b}]; [a[0], a[0], a[0]]", cls, ["A"]))
+            out.append(("exprarr", kname + "/lazy handle made before", f"local a = [{b}]; local c = [x for x in a]; [c[0], a[0], c[0]]", cls, ["A"]))
+            out.append(("exprarr", kname + "/lazy handle made after", f"local a = [{b}]; local c = [x for x in a]; [a[0], c[0], c[0], a[0]]", cls, ["A"]))
+            out.append(("exprarr", kname + "/views", f"local a = [{b}]; std.reverse(a) + a[0:1] + a", cls, ["A"]))
+        # --- MappedArray elements
+        for mk in ("std.map(function(v) %s, [1])", "std.mapWithIndex(function(i, v) %s, [1])"):
+            for selfref in ("m[0]", "[x for x in m][0]"):
+                if not kname.startswith("reentrant") and selfref != "m[0]":
+                    continue
+                m = mk % body("M", selfref)
+                out.append(("mapped", kname, f"local m = {m}; m + m + m", cls, ["M"]))
+                out.append(("mapped", kname, f"local m = {m}; [m[0], m[0], m[0]]", cls, ["M"]))
+                out.append(("mapped", kname + "/lazy handle made before", f"local m = {m}; local c = [x for x in m]; [c[0], m[0], c[0]]", cls, ["M"]))
+                out.append(("mapped", kname + "/lazy handle made after", f"local m = {m}; local c = [x for x in m]; [m[0], c[0], c[0], m[0]]", cls, ["M"]))
+        if not kname.startswith("reentrant"):
+            inner = body("I", "")
+            out.append(("mapped", kname + "/inner element", f"local m = std.map(function(v) v, [{inner}]); m + m + m", cls, ["I"]))
+        # --- object fields
+        for selfref in ("self.f", "o.f"):
+            if not kname.startswith("reentrant") and selfref != "self.f":
+                continue
+            b = body("O", selfref)
+            out.append(("obj", kname, f"local o = {{ f: {b} }}; [o.f, o.f, o.f]", cls, ["O"]))
+            out.append(("obj", kname + "/through self", f"local o = {{ f: {b}, g: self.f, h: self.f }}; [o.g, o.h, o.f, o.g]", cls, ["O"]))
+            out.append(("obj", kname + "/through super", f"local o = {{ f: {b} }} + {{ f: super.f }}; [o.f, o.f, o.f]", cls, ["O"]))
+            out.append(("obj", kname + "/hidden", f"local o = {{ f:: {b} }}; [o.f, o['f'], o.f]", cls, ["O"]))
+            out.append(("obj", kname + "/passing assertion in front", f'local o = {{ assert std.trace("AS", true), f: {b} }}; [o.f, o.f, o.f]', cls, ["O", "AS"]))
+    out.append(("obj", "value/assertion reads the field", 'local o = { assert std.trace("AS", self.f == 2), f: std.trace("O", 1 + 1) }; [o.f, o.f]', "val", ["O", "AS"]))
+    out.append(("obj", "missing field asked twice", 'local o = { f: 1 }; [o.g, o.g]', "runtime-error", []))
+    out.append(("obj", "field reading itself through an assertion", 'local o = { assert self.f == 1, f: std.trace("O", self.f) }; [o.f, o.f]', "infinite-recursion", None))
+    return out
+
+
+def probe_class(x):
+    if x is None:
+        return "out-of-range"
+    if "v" in x:
+        return "val"
+    if "err" in x:
+        return {"InfiniteRecursionDetected": "infinite-recursion", "StackOverflow": "stack-overflow"}.get(x["err"], "runtime-error")
+    return "crash"
+
+
+def memo_probe(run, binary):
+    progs = memo_probe_programs()
+    reqs = [{"code": code, "trace": True, "arrprobe": 0} for (_s, _w, code, _c, _l) in progs]
+    # observed, not judged: the gate of the object site (a failing assertion) is not one of the four cells
+    gate_req = {"code": 'local o = { assert std.trace("AS", false), f: std.trace("O", 1) }; [o.f, o.f, o.f]',
+                "trace": True, "arrprobe": 0}
+    outs = core.run_harness(binary, "eval", reqs + [gate_req])
+    g = outs.pop()
+    if "ok" in g and "get" in g["ok"]:
+        n_as = collections.Counter(g.get("traces", [])).get("AS", 0)
+        run.notes.append(f"object gate (not judged): a failing object assertion followed by 3 field reads through the Rust API "
+                         f"answered {[probe_class(x) for x in g['ok']['get']]} and ran the assertion {n_as} time(s), the field "
+                         f"body {collections.Counter(g.get('traces', [])).get('O', 0)} time(s)")
+    failures = []
+    for (site, what, code, cls, labels), req, o in zip(progs, reqs, outs):
+        run.note_case("memo-probe:" + code, True)
+        run.count("memo_probe:" + site)
+        where = MEMO_SITES[site][0]
+        case = {"request": req, "site": site, "what": what}
+        if "ok" not in o or "get" not in o.get("ok", {}):
+            failures.append({"case": case, "summary": f"C03 memo cell ({where}; {what}): the program did not evaluate to an array: {code}",
+                             "expected": cls, "got": json.dumps(o)[:300]})
+            continue
+        gets = o["ok"]["get"]
+        got = [probe_class(x) for x in gets]
+        counts = collections.Counter(o.get("traces", []))
+        bad = None
+        if any(g != cls for g in got):
+            i = [g != cls for g in got].index(True)
+            bad = (f"position {i} (route {i + 1} to the same cell) answered {got[i]}"
+                   + (f" ({gets[i].get('err') or gets[i].get('panic')})" if isinstance(gets[i], dict) and "v" not in gets[i] else "")
+                   + f", call-by-need demands {cls} at every position")
+        elif cls == "val" and any(json.dumps(g, sort_keys=True) != json.dumps(gets[0], sort_keys=True) for g in gets):
+            bad = "the routes to one cell gave different values"
+        elif labels is not None:
+            for lab in labels:
+                if counts.get(lab, 0) != 1:
+                    bad = f"the shared expression labelled {lab} ran {counts.get(lab, 0)} times, call-by-need demands once"
+                    break
+            extra = [k for k in counts if k not in labels]
+            if not bad and extra:
+                bad = f"unexpected label {extra[0]}"
+        if bad:
+            failures.append({"case": case, "summary": f"C03 memo cell ({where}; {what}): {bad}: {code}",
+                             "expected": {"class": cls, "labels_once": labels}, "got": {"classes": got, "labels": dict(counts)}})
+        elif len([x for x in run.samples if "memo_site" in x]) < 4 and what.startswith(("error", "reentrant")) \
+                and not any(x.get("memo_site") == site for x in run.samples):
+            run.samples.append({"memo_site": site, "jsonnet": code, "positions": got, "labels": dict(counts)})
+    return failures
+
+
 def programs(run, n):
     pg = g.ProgGen(run.rng.fork("progs"), p_err=0.02, p_bomb=0.2)
     fam = sharing_family()
@@ -314,13 +521,32 @@ def check(run, terrs):
     if not binary:
         run.obligation("harness.build", False, err)
         return core.conclude(run, False, err, [], [])
+    stale = [m for n, m in terrs if n == "GenMemo"]
+    if stale:
+        # the translator did not understand the source (the obligation translator.GenMemo already failed);
+        # Gen/GenMemo.v is then left over from an earlier run and says nothing about this tree
+        run.log("source tie: translator/gens/memo.py rejected the source: " + stale[0][:300])
+        deviating = []
+    else:
+        deviating = memo_table_obligations(run)
+    if deviating:
+        run.log("source tie: the translated memo protocol deviates from the model cell at: " + ", ".join(deviating))
+    # the four memo sites, each cell reached twice / re-entrantly / again after an error (first: a failure here
+    # is the concrete input for a broken C03_site_is_model_cell_<site>)
+    failures = memo_probe(run, binary)
+    run.log(f"memo probe done ({len(failures)} failing)")
     progs, flags = programs(run, 8000 if run.tier == "thorough" else 900)
-    failures = correspond(run, binary, progs, flags)
+    failures += correspond(run, binary, progs, flags)
     run.trusted = ["Coq 8.16.1 kernel incl. vm_compute", "Sem's trace log as the call-by-need SPEC (my formalisation)",
-                   "jrharness eval with a collecting TracePrinter; generators; Coq term parser"]
+                   "jrharness eval with a collecting TracePrinter; generators; Coq term parser",
+                   "translator/gens/memo.py (reads the four memo sites' statements; fails closed on anything else) "
+                   "and the generic interpreter ModelSource.site_force of the translated step functions"]
     run.assumptions = ["that evaluate() creates exactly the cells Sem creates is tied only by this trace "
                        "correspondence; evaluation ORDER is not compared; labels inside field bodies of objects "
-                       "that use super/+: are compared as a set (one evaluation per access path is allowed)"]
+                       "that use super/+: are compared as a set (one evaluation per access path is allowed)",
+                       "source tie: the closure a site runs is abstract (any script of further calls on the same store); "
+                       "the object site's run_assertions() gate is modelled as an arbitrary pass/fail outcome per call "
+                       "(a FAILED assertion is not memoised by the code: it runs again at the next field access)"]
 
     def search():
         p2, f2 = programs(run, 4000)
@@ -345,7 +571,9 @@ def replay(run, data):
     return 0
 
 
-RULE = ("the n-fold sharing / unneeded-position family (fixed) + type-directed random programs with 20% bombs in "
+RULE = ("memo-site probe (each of thunk / ExprArray / MappedArray / object-field cell reached by 2-4 routes: twice, "
+        "re-entrantly, after an error, through get_lazy handles made before and after; every route must give the same "
+        "outcome class and every label fire once) + the n-fold sharing / unneeded-position family (fixed) + type-directed random programs with 20% bombs in "
         "unneeded positions; every sub-expression wrapped in a distinct std.trace label; compared: outcome, and for "
         "value outcomes the multiset of fired labels against Sem's log; distinct = distinct instrumented source; "
         "non-trivial = at least 4 labels")
